@@ -33,7 +33,7 @@ fn line_of_width(t: &mut Tape, target: usize, o: &TextOpts) -> String {
     s
 }
 
-fn gen(t: &mut Tape, tier: Tier) -> (DiffCase, Cfg) {
+fn gen(t: &mut Tape, tier: Tier, tty: bool) -> (DiffCase, Cfg) {
     let mut co = CfgOpts::unified();
     co.side_by_side = Some(true);
     co.allow_presets = false;
@@ -45,7 +45,9 @@ fn gen(t: &mut Tape, tier: Tier) -> (DiffCase, Cfg) {
     cfg.unset("max-line-length");
     cfg.unset("features");
     cfg.unset("relative-paths");
-    cfg.unset("line-fill-method"); // (ansi fill needs a terminal: pty mode, thorough tier)
+    // ansi fill needs a terminal on stdout (delta switches to spaces otherwise): only the
+    // workers whose identity asks for a pseudo-terminal keep/choose the fill method
+    cfg.unset("line-fill-method");
     if t.chance(1, 3) {
         cfg.set("line-numbers-left-format", t.ps(&["│{nm:^4}│", "{nm:>6}|", "{nm}:", "[{nm:^5}]", "{nm:^1}"]));
         cfg.set("line-numbers-right-format", t.ps(&["│{np:^4}│", "{np:>6}|", "{np}:", "{np:^7}‖", "{np:^1}"]));
@@ -111,6 +113,30 @@ fn gen(t: &mut Tape, tier: Tier) -> (DiffCase, Cfg) {
         }
         let p = text::path(t, &text::PathOpts::plain());
         items.push(Item::Section(Section { kind: SK::Modified, old_path: p.clone(), new_path: p, old_mode: "100644".into(), new_mode: "100644".into(), hunks, parents: 1, prefixes: ("a/".into(), "b/".into()) }));
+    }
+    // (drawn last, so that the layout of everything above is what it was before these were added)
+    let mut extra = t.fork(6);
+    let fill = extra.weighted(&[2, 2, 1]);
+    if tty {
+        match fill {
+            0 => {}
+            1 => cfg.set("line-fill-method", "ansi"),
+            _ => cfg.set("line-fill-method", "spaces"),
+        }
+    }
+    // a gutter without a number (the manual's recipe for hiding the numbers): the side is then
+    // judged as a whole (see `evaluate`), with unlimited wrapping so that nothing may be cut
+    let numberless = extra.weighted(&[12, 1, 1, 1]);
+    if numberless > 0 {
+        if numberless & 1 == 1 {
+            cfg.set("line-numbers-right-format", extra.ps(&["│ ", "| ", "▏"]));
+        } else {
+            extra.raw();
+        }
+        if numberless >= 2 {
+            cfg.set("line-numbers-left-format", extra.ps(&["│ ", "| ", "▏"]));
+        }
+        cfg.set("wrap-max-lines", "unlimited");
     }
     (DiffCase { items, final_newline: true }, cfg)
 }
@@ -193,6 +219,14 @@ fn evaluate(case: &DiffCase, cfg: &Cfg, out: &[u8]) -> Result<(bool, bool, bool)
         Some("variable") | None => 80,
         Some(w) => w.parse().unwrap_or(80),
     };
+    // a side whose gutter format has no number placeholder cannot be assembled line by line: its
+    // fragments are collected and judged as a whole
+    let numbered = [
+        cfg.get("line-numbers-left-format").map(|f| !rows::placeholders(f).is_empty()).unwrap_or(true),
+        cfg.get("line-numbers-right-format").map(|f| !rows::placeholders(f).is_empty()).unwrap_or(true),
+    ];
+    let mut loose: [Vec<String>; 2] = [Vec::new(), Vec::new()];
+    let mut loose_trunc: [Option<usize>; 2] = [None, None];
     let mut right_start: Option<(usize, usize)> = None;
     let mut asm_l: Vec<Assembled> = Vec::new();
     let mut asm_r: Vec<Assembled> = Vec::new();
@@ -267,7 +301,14 @@ fn evaluate(case: &DiffCase, cfg: &Cfg, out: &[u8]) -> Result<(bool, bool, bool)
                     wide_near_edge = true;
                 }
             }
-            if !p.numbers.is_empty() {
+            if !numbered[side] {
+                if has_content {
+                    loose[side].push(frag);
+                    if truncated && loose_trunc[side].is_none() {
+                        loose_trunc[side] = Some(ri);
+                    }
+                }
+            } else if !p.numbers.is_empty() {
                 // first row of the next line of this side
                 let ei = asm.len();
                 let e = match exp.get(ei) {
@@ -315,7 +356,23 @@ fn evaluate(case: &DiffCase, cfg: &Cfg, out: &[u8]) -> Result<(bool, bool, bool)
     };
     let mut any_wrapped = false;
     let mut any_trunc = false;
-    for (side, exp, asm) in [("left", &left, &asm_l), ("right", &right, &asm_r)] {
+    for (si, (side, exp, asm)) in [("left", &left, &asm_l), ("right", &right, &asm_r)].into_iter().enumerate() {
+        if !numbered[si] {
+            // (generated with unlimited wrapping: nothing may be cut, and all text must be there)
+            if let Some(ri) = loose_trunc[si] {
+                return Err(fail("cut-although-unlimited", format!("{} panel (gutter without numbers): output row {} ends in the truncation mark although the number of wrapped rows is unlimited", side, ri)));
+            }
+            let got: String = loose[si].concat().chars().filter(|c| *c != ' ').collect();
+            let want: String = exp.iter().map(|e| e.text.as_str()).collect::<String>().chars().filter(|c| *c != ' ').collect();
+            if got != want {
+                let k = got.chars().zip(want.chars()).take_while(|(a, b)| a == b).count();
+                return Err(fail("reassembly", format!("{} panel (gutter without numbers): the text of all rows joined differs from the text of all lines of that side (blanks ignored) at character {}: shown `{}`, expected `{}`", side, k, got.chars().skip(k.saturating_sub(10)).take(40).collect::<String>(), want.chars().skip(k.saturating_sub(10)).take(40).collect::<String>())));
+            }
+            if loose[si].len() > exp.iter().filter(|e| !e.text.trim().is_empty()).count() {
+                any_wrapped = true;
+            }
+            continue;
+        }
         if asm.len() != exp.len() {
             let e = &exp[asm.len().min(exp.len() - 1)];
             return Err(fail("line-missing", format!("{} panel: {} of {} lines shown; first missing: `{}` (section {}, hunk {}, line {})", side, asm.len(), exp.len(), e.text, e.sec, e.hunk, e.idx)));
@@ -351,7 +408,7 @@ fn evaluate(case: &DiffCase, cfg: &Cfg, out: &[u8]) -> Result<(bool, bool, bool)
         }
     }
     // (f) pairing at maximal distance: i-th removed shares its first row with the i-th added
-    if cfg.get("max-line-distance") == Some("1") && !cfg.has("line-buffer-size") {
+    if cfg.get("max-line-distance") == Some("1") && !cfg.has("line-buffer-size") && numbered[0] && numbered[1] {
         for (a, e) in asm_l.iter().map(|a| (a, &left[a.exp_index])).filter(|(_, e)| e.kind == LK::Minus) {
             if let Some(b) = asm_r.iter().find(|b| right[b.exp_index].kind == LK::Plus && right[b.exp_index].sub == e.sub && right[b.exp_index].ord == e.ord) {
                 if a.first_row != b.first_row {
@@ -404,14 +461,24 @@ impl Prop for C07 {
         vec![
             "terminal model widths = unicode-width tables".to_string(),
             "line numbers are on (delta's side-by-side default), formats {nm} left / {np} right; the gutters delimit the panels".to_string(),
-            "line-fill-method ansi (needs a terminal) is not covered by the quick tier".to_string(),
+            "line-fill-method ansi is honoured only with a terminal on stdout: a quarter of the workers run with a pseudo-terminal (80x24) as stdout; a side whose gutter format has no number placeholder is judged as a whole (all fragments joined = all lines joined, blanks ignored; nothing cut under unlimited wrapping)".to_string(),
         ]
     }
     fn needs_binary(&self) -> bool {
         true
     }
+    fn identities(&self) -> Vec<Vec<String>> {
+        // every fourth worker has a pseudo-terminal as stdout (line-fill-method ansi, the default
+        // on a terminal, is only honoured there)
+        let v = |a: &[&str]| a.iter().map(|s| s.to_string()).collect::<Vec<_>>();
+        vec![v(&["git", "diff"]), v(&["git", "diff"]), v(&["git", "diff"]), v(&["git", "diff", "@pty"])]
+    }
     fn check(&self, t: &mut Tape, ctx: &mut Ctx) -> Verdict {
-        let (case, cfg) = gen(t, ctx.tier);
+        let tty = crate::runner::identity_wants_tty(&ctx.identity);
+        let (case, cfg) = gen(t, ctx.tier, tty);
+        ctx.class_if(tty, "stdout-is-a-terminal");
+        ctx.class_if(tty && cfg.get("line-fill-method") != Some("spaces"), "ansi-fill");
+        ctx.class_if(cfg.get("line-numbers-right-format").map(|f| rows::placeholders(f).is_empty()).unwrap_or(false) || cfg.get("line-numbers-left-format").map(|f| rows::placeholders(f).is_empty()).unwrap_or(false), "gutter-without-number");
         let input = case.bytes();
         let out = match exec::run_cfg(&cfg, ctx, &input) {
             Ok(o) => o,
@@ -434,7 +501,8 @@ impl Prop for C07 {
                         ctx.sample(json!({"argv": cfg.base_args(), "input": exec::printable(&input[..input.len().min(1200)]), "output_visible": term::visible_text(&out).chars().take(2000).collect::<String>()}));
                     }
                 }
-                if ctx.want_xcheck() && cfg.gitconfig.is_none() && cfg.env.current_dir.is_none() {
+                // (the binary cross-check runs delta on pipes: not comparable with a terminal run)
+                if ctx.want_xcheck() && !tty && cfg.gitconfig.is_none() && cfg.env.current_dir.is_none() {
                     ctx.xchecks.push(json!({"argv": cfg.args(None), "env": exec::env_from_spec(&cfg.env), "cwd": cfg.env.current_dir,
                         "identity": ctx.identity, "input_hex": exec::hex(&input), "out_hash": format!("{:016x}", fnv(&out))}));
                 }
